@@ -88,7 +88,7 @@ def _wav(n=40, rate=1000, width=2):
 def _save_pair(fmt, variant):
     def mk():
         tg = Textgrid(0.0, 3.0)
-        tg.addTier(IT("t", [(0.0, 1.0, "a"), (1.0, 1.0 + 5e-9, "s"), (1.5, 2.0, "b")], 0.0, 3.0))
+        tg.addTier(IT("t", [(0.0, 1.0, "a"), (1.0, 1.0 + 5e-9, "s"), (1.5, 2.0, "b"), (2.0, 2.0 + 2.0 ** -24, "k"), (2.5, 2.5 + 2.0 ** -21, "m")], 0.0, 3.0))  # slivers either side of 1e-8
         tg.addTier(PT("p", [(1.0, "x")], 0.0, 3.0))
         if variant == "inconsistent":   # a tier wider than the textgrid: reportingMode matters
             tg.addTier(IT("wide", [(0.0, 4.0, "w")], 0.0, 4.0), reportingMode="silence")
@@ -159,6 +159,32 @@ def table():
             return f
         for prop in ("C05", "C11", "C13"):
             add(prop, f"IntervalTier.insertEntry({e}): collisionMode, collisionReportingMode", mk_ins(), mk_ins(explicit=True))
+    # the first optional argument given, the second omitted
+    for mode in ("replace", "merge"):
+        for e in ((0.5, 1.5, "n"), (2.0, 3.0, "n")):
+            def mk_ins2(e=e, mode=mode, explicit=False):
+                def f():
+                    t = _iv()
+                    if explicit:
+                        t.insertEntry(Interval(*e), mode, "warning")
+                    else:
+                        t.insertEntry(Interval(*e), mode)
+                    return t
+                return f
+            for prop in ("C05", "C11"):
+                add(prop, f"IntervalTier.insertEntry({e}, {mode!r}): collisionReportingMode", mk_ins2(), mk_ins2(explicit=True))
+        for e in ((1.0, "n"), (2.0, "n")):
+            def mk_insp2(e=e, mode=mode, explicit=False):
+                def f():
+                    t = _pt()
+                    if explicit:
+                        t.insertEntry(Point(*e), mode, "warning")
+                    else:
+                        t.insertEntry(Point(*e), mode)
+                    return t
+                return f
+            for prop in ("C05", "C11"):
+                add(prop, f"PointTier.insertEntry({e}, {mode!r}): collisionReportingMode", mk_insp2(), mk_insp2(explicit=True))
     for e in ((2.0, "n"), (1.0, "n")):
         def mk_insp(e=e, explicit=False):
             def f():
@@ -181,6 +207,21 @@ def table():
                 lambda a=a, b=b: _iv().eraseRegion(a, b, "error", True))
         add("C07", f"PointTier.eraseRegion({a}, {b}): collisionMode, doShrink", lambda a=a, b=b: _pt().eraseRegion(a, b),
             lambda a=a, b=b: _pt().eraseRegion(a, b, "error", True))
+    # partial omission: earlier optional arguments given, the later ones left out
+    for mode in ("strict", "lax", "truncated"):
+        add("C06", f"PointTier.crop(0.75, 3.5, {mode!r}): rebaseToZero", lambda mode=mode: _pt().crop(0.75, 3.5, mode), lambda mode=mode: _pt().crop(0.75, 3.5, mode, True))
+    for mode in ("truncate", "categorical", "error"):
+        for a, b in ((0.5, 1.5), (2.25, 2.75)):
+            add("C07", f"IntervalTier.eraseRegion({a}, {b}, {mode!r}): doShrink", lambda a=a, b=b, mode=mode: _iv().eraseRegion(a, b, mode),
+                lambda a=a, b=b, mode=mode: _iv().eraseRegion(a, b, mode, True))
+            add("C07", f"PointTier.eraseRegion({a}, {b}, {mode!r}): doShrink", lambda a=a, b=b, mode=mode: _pt().eraseRegion(a, b, mode),
+                lambda a=a, b=b, mode=mode: _pt().eraseRegion(a, b, mode, True))
+    for q in ("a", "A", "^a"):
+        for flag in (False, True):
+            add("C15", f"IntervalTier.find({q!r}, {flag}): usingRE", lambda q=q, flag=flag: _iv(((0.0, 1.0, "a"), (1.0, 2.0, "ab"), (3.0, 4.0, "A"))).find(q, flag),
+                lambda q=q, flag=flag: _iv(((0.0, 1.0, "a"), (1.0, 2.0, "ab"), (3.0, 4.0, "A"))).find(q, flag, False))
+            add("C15", f"PointTier.find({q!r}, {flag}): usingRE", lambda q=q, flag=flag: _pt(((0.5, "a"), (1.0, "ab"), (3.0, "A"))).find(q, flag),
+                lambda q=q, flag=flag: _pt(((0.5, "a"), (1.0, "ab"), (3.0, "A"))).find(q, flag, False))
     for s0 in (0.5, 2.5, 3.0):
         for prop in ("C08", "C12"):
             add(prop, f"Textgrid.insertSpace({s0}, 1.0): collisionMode", lambda s0=s0: _tg().insertSpace(s0, 1.0), lambda s0=s0: _tg().insertSpace(s0, 1.0, "error"))
